@@ -76,7 +76,31 @@ def run(rep, tier, seed):
     scripts += respell_sessions(confs)
     nresp = len(scripts) - nresp
     fold_table_tie(rep)
-    judged = sessions.run_judged(scripts, flags=("wf", "tree"), shards=16)
+    # quick tier: on FAT32 volumes (65525+ clusters: one evaluation of the invariants costs about a second) the invariants are
+    # evaluated at every fourth call and at the end instead of after every call; the thorough tier evaluates after every call
+    def is32(sc_lines):
+        return any(l.startswith("format ") and l.split()[4] == "32" for l in sc_lines[:4])
+    if tier == "quick":
+        big = [i for i, s_ in enumerate(scripts) if is32(s_)]
+        small = [i for i in range(len(scripts)) if i not in set(big)]
+        sparse = []
+        for i in big:
+            out = []
+            k = 0
+            for l in scripts[i]:
+                out.append(l)
+                if l.split(" ")[0] in ("create_file", "create_dir", "write", "write_pat", "truncate", "remove", "rename", "flush", "drop_file", "drop_all"):
+                    k += 1
+                    if k % 4 == 0:
+                        out.append("stats")
+            sparse.append(out)
+        judged = [None] * len(scripts)
+        for i, jd in zip(small, sessions.run_judged([scripts[i] for i in small], flags=("wf", "tree"), shards=16)):
+            judged[i] = jd
+        for i, jd in zip(big, sessions.run_judged(sparse, flags=("wfs", "tree"), shards=16)):
+            judged[i] = jd
+    else:
+        judged = sessions.run_judged(scripts, flags=("wf", "tree"), shards=16)
     checked_states = 0
     for jd in judged:
         f = sc.Findings(jd)
